@@ -512,6 +512,7 @@ func checkC20(c *Ctx, r *Report) {
 	ruleLexPrimitivesOnly(c, r, "lexer-primitives")
 	ruleCursorSteps(c, r, "cursor-steps")
 	ruleFullRune(c, r, "multibyte-layout-complete")
+	ruleRefill(c, r, "multibyte-layout-kept")
 	ruleSemicolon(c, r, "semicolon")
 	ruleTokenTables(c, r, "token-tables", spec)
 	// parentheses emit nothing themselves and nest through expr()
